@@ -43,6 +43,14 @@ class FakeDT(_RealDT):
         return CLOCK.now if CLOCK.now is not None else _RealDT.now(tz)
 
 
+class _DatetimeModuleProxy(object):
+    """Stands for the datetime module inside the cassette module: datetime.datetime is the controlled clock."""
+    datetime = FakeDT
+
+    def __getattr__(self, item):
+        return getattr(_dt, item)
+
+
 class FakeS3(object):
     def __init__(self):
         self.buckets = {}
@@ -171,8 +179,12 @@ def install(fake=None):
     if not hasattr(facade, 'boto3'):
         raise RuntimeError('cannot take control of boto3 in s3_basic_facade')
     facade.boto3 = _Boto3
-    if getattr(cassette, 'datetime', None) is None:
+    current = getattr(cassette, 'datetime', None)
+    if current is None:
         raise RuntimeError('cannot take control of the clock in s3_tape_cassette')
-    cassette.datetime = FakeDT
+    if current is _dt or isinstance(current, _DatetimeModuleProxy):
+        cassette.datetime = _DatetimeModuleProxy()      # the module does `import datetime`
+    else:
+        cassette.datetime = FakeDT                      # the module does `from datetime import datetime`
     CLOCK.now = None
     return CURRENT
